@@ -5,7 +5,7 @@ import ast
 
 from ..model import ENFA, NFA, DFA, EPS_TAG
 from .common import site_of
-from .flow import (both_answers, Oblig, calls, events, receivers, START, FINAL, STATES, SYMBOLS, DELTA_SYM, DELTA_EPS, SELF, P,
+from .flow import (own, both_answers, Oblig, calls, events, receivers, START, FINAL, STATES, SYMBOLS, DELTA_SYM, DELTA_EPS, SELF, P,
                    result_locs, deps_of, arg_deps, is_worklist_closure, comp)
 
 EXPLANATION = (
@@ -44,7 +44,7 @@ def run(eng, rep, tier):
                   site=site_of(prog, fi, fi.node))
     fi = prog.method("EpsilonNFA", "is_empty")
     summ = interp.run_entry(fi, ENFA)
-    tests = [ev for ev in summ.events if ev.kind == "member" and ev.recv is not None and FINAL() in ev.recv.alias]
+    tests = [ev for ev in own(summ) if ev.kind == "member" and ev.recv is not None and FINAL() in ev.recv.alias]
     tests += [ev for ev, _ in calls(summ, "is_final_state", own=True)]
     from .flow import may_be_element_of
     TRANS = ("self", ("_transition_function", "_transitions"))
@@ -134,7 +134,7 @@ def run(eng, rep, tier):
                       "yielded words depend on " + role, "get_accepted_words does not depend on " + role, summ,
                       site=site_of(prog, fi, fi.node))
         # epsilon extends the path, not the word
-        appends = [ev for ev in summ.events if ev.kind == "write" and ev.wkind == "mutate:append"
+        appends = [ev for ev in own(summ) if ev.kind == "write" and ev.wkind == "mutate:append"
                    and ev.value is not None and ("EDGE_SYMBOL", SELF) in deps_of(ev.value)]
         ok = bool(appends) and all(EPS_TAG in ev.ctrl for ev in appends)
         ob.decide("R1", "C04.4", fi, "epsilon-not-appended:" + label, ok,
